@@ -14,6 +14,9 @@ PROPS = {
         "thorough_runs": 300000,
         "quick_wall": 240,
         "thorough_wall": 2400,
+        # (a share of sessions mixes scope registrations with insert_at at
+        # the same place: registration order across the two kinds of request)
+        "params": {"scope_session_p": 0.12, "constraints_p": 0.1},
         "rule": "seeded scenarios (random module + 1-3 sessions of insert/replace/delete requests) executed against the real "
         "library and the listing model; distinct = distinct (module, sessions) digest; non-trivial = at least one "
         "modification was registered",
@@ -30,7 +33,7 @@ PROPS = {
         "thorough_runs": 300000,
         "quick_wall": 240,
         "thorough_wall": 2400,
-        "params": {"end_label_p": 0.45, "delblock_p": 0.3},
+        "params": {"end_label_p": 0.45, "delblock_p": 0.3, "constraints_p": 0.1},
         "rule": "seeded scenarios biased to several start/at_end labels per block and whole-block deletions; distinct = "
         "distinct (module, sessions) digest; non-trivial = at least one modification was registered",
         "real_vs_stub": RW_REAL,
@@ -45,6 +48,7 @@ PROPS["C03"] = {
     "thorough_runs": 300000,
     "quick_wall": 240,
     "thorough_wall": 2400,
+    "params": {"constraints_p": 0.1},
     "rule": "seeded scenarios (random module with per-instruction-consistent CFG + 1-3 sessions of edits with patches made of "
     "plain/jmp/jcc/call/ret/indirect instructions and labels); distinct = distinct (module, sessions) digest; "
     "non-trivial = at least one modification was registered",
@@ -62,7 +66,7 @@ PROPS["C04"] = {
     "thorough_runs": 225000,
     "quick_wall": 240,
     "thorough_wall": 2400,
-    "params": {"annot_p": 0.4},
+    "params": {"annot_p": 0.4, "constraints_p": 0.1},
     "rule": "seeded scenarios with symbolic expressions in code and data and block-/interval-keyed comments and padding entries "
     "(on first, last and inner bytes of instructions), edited before, inside and after the annotated positions; distinct = "
     "(module, sessions) digest; non-trivial = at least one modification registered",
@@ -77,7 +81,7 @@ PROPS["C05"] = {
     "thorough_runs": 75000,
     "quick_wall": 240,
     "thorough_wall": 2400,
-    "params": {"annot_p": 0.2},
+    "params": {"annot_p": 0.2, "allow_fall_off": True, "delblock_p": 0.25},
     "rule": "seeded scenarios as for C01; after every session the whole-IR validator (blocks in intervals, no overlap of new blocks, "
     "every node in CFG / symbols / expressions / any aux table is in the module, zero-sized blocks only in documented cases, "
     "addresses, protobuf round trip); then, per scenario with N patch callbacks, N more executions from a fresh build with an "
@@ -99,7 +103,7 @@ PROPS["C06"] = {
     "thorough_runs": 225000,
     "quick_wall": 240,
     "thorough_wall": 2400,
-    "params": {"delblock_p": 0.25, "insfn_p": 0.2},
+    "params": {"delblock_p": 0.25, "insfn_p": 0.2, "constraints_p": 0.1},
     "rule": "seeded scenarios with 0-4 functions (adjacent, interleaved with function-less code and data), edits at function "
     "boundaries, whole-function deletion, deletion of entry blocks and of the promoted block, inserted functions; distinct = "
     "(module, sessions) digest; non-trivial = at least one modification registered",
@@ -114,7 +118,7 @@ PROPS["C07"] = {
     "thorough_runs": 225000,
     "quick_wall": 240,
     "thorough_wall": 2400,
-    "params": {"scope_session_p": 0.85, "main_p": 0.4},
+    "params": {"scope_session_p": 0.85, "main_p": 0.4, "constraints_p": 0.1},
     "rule": "seeded scenarios whose sessions register 1-4 scope-based insertions (AllBlocksScope / SingleBlockScope / "
     "AllFunctionsScope x ENTRY/EXIT/ANYWHERE x literal / regex / MAIN_NAME / ENTRYPOINT_NAME filters) plus insert_at at specific "
     "places, through a bare RewritingContext or a PassManager with 1-3 passes, with and without function tables; instrumented "
@@ -199,7 +203,7 @@ PROPS["C11"] = {
     "thorough_runs": 45000,
     "quick_wall": 300,
     "thorough_wall": 2400,
-    "params": {"k": 4, "insfn_p": 0.05},
+    "params": {"k": 4, "insfn_p": 0.05, "constraints_p": 0.3},
     "thorough_params": {"k": 8},
     "rule": "each seeded scenario is executed under K schedules (quick K=4, thorough K=8): fresh UUID stream, fresh node-hash salt "
     "(= iteration order of every set/dict of gtirb nodes), another PYTHONHASHSEED (helper interpreters), and a permuted "
